@@ -377,4 +377,107 @@ theorem execute_class (x : Circuit) (hx : ExecClass x) : Cls Good (execute x) :=
     simp only [hv]
     exact Cls.pure _
 
+/-! ### The executable copy of `ExpandMacros.WellFormed` is the original -/
+namespace WF
+open Jaqal.ExpandMacros
+
+theorem noParam_eq : ∀ v : Val, WF.noParam v = ExpandMacros.noParam v
+  | .int _ => rfl
+  | .flt _ => rfl
+  | .none => rfl
+  | .str _ => rfl
+  | .const _ v => by simp only [WF.noParam, ExpandMacros.noParam, noParam_eq v]
+  | .param _ _ => rfl
+  | .qubit _ s i => by simp only [WF.noParam, ExpandMacros.noParam, noParam_eq s, noParam_eq i]
+  | .regF _ s => by simp only [WF.noParam, ExpandMacros.noParam, noParam_eq s]
+  | .regA _ s => by simp only [WF.noParam, ExpandMacros.noParam, noParam_eq s]
+  | .regS _ s a b c => by
+    simp only [WF.noParam, ExpandMacros.noParam, noParam_eq s, noParam_eq a, noParam_eq b, noParam_eq c]
+
+theorem isParam_eq (v : Val) : WF.isParam v = ExpandMacros.isParam v := by cases v <;> rfl
+
+theorem okVal_eq (v : Val) : WF.okVal v = ExpandMacros.okVal v := by
+  cases v <;> simp only [WF.okVal, ExpandMacros.okVal, noParam_eq, isParam_eq]
+
+theorem wfGate_eq (ms : List Macro) (n : String) (gd : GateDef) (args : List (String × Val)) :
+    WF.wfGate ms n gd args = ExpandMacros.wfGate ms n gd args := by
+  have : (fun a : String × Val => WF.okVal a.2) = (fun a => ExpandMacros.okVal a.2) := by
+    funext a; exact okVal_eq a.2
+  simp only [WF.wfGate, ExpandMacros.wfGate, this]
+  generalize findMacro ms n = o
+  cases o <;> rfl
+
+mutual
+  theorem wfStmt_eq (ms : List Macro) : ∀ s : Stmt, WF.wfStmt ms s = ExpandMacros.wfStmt ms s
+    | .gate n gd args => by simp only [WF.wfStmt, ExpandMacros.wfStmt, wfGate_eq]
+    | .loop c b => by simp only [WF.wfStmt, ExpandMacros.wfStmt, isParam_eq, noParam_eq, wfStmt_eq ms b]
+    | .block _ _ it body => by simp only [WF.wfStmt, ExpandMacros.wfStmt, isParam_eq, noParam_eq, wfStmtList_eq ms body]
+  theorem wfStmtList_eq (ms : List Macro) : ∀ l : List Stmt, WF.wfStmtList ms l = ExpandMacros.wfStmtList ms l
+    | [] => rfl
+    | s :: r => by simp only [WF.wfStmtList, ExpandMacros.wfStmtList, wfStmt_eq ms s, wfStmtList_eq ms r]
+end
+
+mutual
+  theorem inScope_eq (av al : List String) : ∀ s : Stmt, WF.inScope av al s = ExpandMacros.inScope av al s
+    | .gate n _ _ => rfl
+    | .loop _ b => by simp only [WF.inScope, ExpandMacros.inScope, inScope_eq av al b]
+    | .block _ _ _ body => by simp only [WF.inScope, ExpandMacros.inScope, inScopeList_eq av al body]
+  theorem inScopeList_eq (av al : List String) : ∀ l : List Stmt, WF.inScopeList av al l = ExpandMacros.inScopeList av al l
+    | [] => rfl
+    | s :: r => by simp only [WF.inScopeList, ExpandMacros.inScopeList, inScope_eq av al s, inScopeList_eq av al r]
+end
+
+theorem wfMacrosFrom_eq (ms : List Macro) : ∀ (l : List Macro) (pre : List String),
+    WF.wfMacrosFrom ms pre l = ExpandMacros.wfMacrosFrom ms pre l
+  | [], _ => rfl
+  | m :: r, pre => by
+    simp only [WF.wfMacrosFrom, ExpandMacros.wfMacrosFrom, wfStmt_eq, inScope_eq, wfMacrosFrom_eq ms r]
+
+theorem isReg_eq (v : Val) : WF.isReg v = ExpandMacros.isReg v := by cases v <;> rfl
+
+theorem intLike_eq (v : Val) : WF.intLike v = ExpandMacros.intLike v := by
+  cases v with
+  | const n w => cases w <;> rfl
+  | _ => rfl
+
+theorem regBuilt_eq : ∀ v : Val, WF.regBuilt v = ExpandMacros.regBuilt v
+  | .int _ => rfl
+  | .flt _ => rfl
+  | .none => rfl
+  | .str _ => rfl
+  | .const _ _ => rfl
+  | .param _ _ => rfl
+  | .qubit _ _ _ => rfl
+  | .regF _ size => by cases size <;> rfl
+  | .regA _ src => by simp only [WF.regBuilt, ExpandMacros.regBuilt, isReg_eq, regBuilt_eq src]
+  | .regS _ src a b c => by simp only [WF.regBuilt, ExpandMacros.regBuilt, isReg_eq, intLike_eq]
+
+theorem goodVal_eq (v : Val) : WF.goodVal v = ExpandMacros.goodVal v := by
+  cases v <;> simp only [WF.goodVal, ExpandMacros.goodVal, isReg_eq, regBuilt_eq]
+
+mutual
+  theorem wfT_eq : ∀ s : Stmt, WF.wfT s = ExpandMacros.wfT s
+    | .gate _ _ args => by
+      have : (fun a : String × Val => WF.goodVal a.2) = (fun a => ExpandMacros.goodVal a.2) := by
+        funext a; exact goodVal_eq a.2
+      simp only [WF.wfT, ExpandMacros.wfT, this]
+    | .loop c b => by simp only [WF.wfT, ExpandMacros.wfT, wfT_eq b]
+    | .block _ _ it body => by simp only [WF.wfT, ExpandMacros.wfT, wfTList_eq body]
+  theorem wfTList_eq : ∀ l : List Stmt, WF.wfTList l = ExpandMacros.wfTList l
+    | [] => rfl
+    | s :: r => by simp only [WF.wfTList, ExpandMacros.wfTList, wfT_eq s, wfTList_eq r]
+end
+
+/-- the driver op `well_formed` evaluates the hypothesis of `C04_total_class` -/
+theorem wellFormed_eq (c : Circuit) : WF.wellFormed c = ExpandMacros.WellFormed c := by
+  have : (fun m : Macro => WF.wfT m.body) = (fun m => ExpandMacros.wfT m.body) := by
+    funext m; exact wfT_eq m.body
+  simp only [WF.wellFormed, ExpandMacros.WellFormed, wfMacrosFrom_eq, wfStmt_eq, wfT_eq, this]
+  generalize c.body = b
+  cases b with
+  | block par sub it body => cases par <;> cases sub <;> rfl
+  | _ => rfl
+
+end WF
+
 end Jaqal.RunModel
